@@ -42,7 +42,7 @@ def check_case(case, stats=None, K=oracle.K_QUICK, known=None):
         if stats is not None:
             stats.evaluations += 1
             desc = res["error"].get("description", "")
-            stats.discarded["reject:" + ("registers" if "out of registers" in desc else oracle.norm_error(desc))] += 1
+            stats.discarded["reject:" + ("registers" if oracle.out_of_registers(desc) else oracle.norm_error(desc))] += 1
         return
     v = res.get("_verif")
     if not v:
